@@ -34,7 +34,13 @@ Init ==
           /\ arg = ds /\ exp = WalkAll(Poly(<<2, 1>>, ds, 1))
   \/ /\ kind = "hist" /\ arg = <<1>> /\ hist = <<>> /\ exp = WalkAll(Poly(<<2, 1>>, <<1>>, 1))
 \* histories: the path is described by its direction word; edits change the word, queries leave it
-Edit(name, w) == /\ hist' = Append(hist, <<name, w>>) /\ arg' = w /\ exp' = WalkAll(Poly(<<2, 1>>, w, 1))
+\* the path may also be scaled in place by 2 and reified ("scale2"): the whole geometry is then K times the word's
+\* geometry, K = 2^(number of scale2 events); later edits are made at that scale
+RECURSIVE Pow2Of(_, _)
+Pow2Of(h, i) == IF i > Len(h) THEN 1 ELSE (IF h[i][1] = "scale2" THEN 2 ELSE 1) * Pow2Of(h, i + 1)
+ScaleSet(S, k) == {<<RMul(q[1], R(k)), RMul(q[2], R(k))>> : q \in S}
+Scaled(w, k) == LET a == WalkAll(Poly(<<2, 1>>, w, 1)) IN [j \in 1..9 |-> ScaleSet(a[j], k)]
+Edit(name, w) == /\ hist' = Append(hist, <<name, w>>) /\ arg' = w /\ exp' = Scaled(w, Pow2Of(hist', 1))
 Next == /\ kind = "hist" /\ Len(hist) < MaxOps /\ UNCHANGED kind
         /\ \/ (hist' = Append(hist, <<"query", arg>>) /\ UNCHANGED <<arg, exp>>)
            \/ (hist' = Append(hist, <<"length", arg>>) /\ UNCHANGED <<arg, exp>>)
@@ -42,6 +48,7 @@ Next == /\ kind = "hist" /\ Len(hist) < MaxOps /\ UNCHANGED kind
            \/ (Len(arg) >= 2 /\ Edit("delete_last", SubSeq(arg, 1, Len(arg) - 1)))
            \/ \E d \in {2, 5} : Edit("replace_last", Append(SubSeq(arg, 1, Len(arg) - 1), d))
            \/ \E d \in {3, 6} : Len(arg) < 4 /\ Edit("extend_str", Append(arg, d))
+           \/ (Pow2Of(hist, 1) < 4 /\ Edit("scale2", arg))
 \* simulation mode: long query/edit histories
 InitHist == kind = "hist" /\ arg = <<1>> /\ hist = <<>> /\ exp = WalkAll(Poly(<<2, 1>>, <<1>>, 1))
 Emit == Len(hist) >= 5 => PrintT(<<"CASE", arg, exp, hist>>)
